@@ -97,6 +97,12 @@ func (c *pcCtx) lets(pre []string, body pgNode) pgNode {
 }
 
 func (c *pcCtx) stmts(list []ast.Stmt, k pgNode) pgNode {
+	if c.liftTop {
+		c.liftTop = false
+		if n := c.liftTail(list, k); n != nil {
+			return n
+		}
+	}
 	for i := len(list) - 1; i >= 0; i-- {
 		k = c.stmt(list[i], k)
 	}
@@ -859,4 +865,70 @@ func (c *pcCtx) joinIf(x *ast.IfStmt, k pgNode) pgNode {
 		return c.stmt(x.Init, n)
 	}
 	return n
+}
+
+// In a function on a recursive cycle, what follows the LAST join-`if` at the top level of the body is emitted as an
+// auxiliary function <fn>_k1 over the variables it uses (the cycle members being function parameters, as for loops):
+// the continuation of the join point gets a name instead of being inlined.
+func (c *pcCtx) liftTail(list []ast.Stmt, k pgNode) pgNode {
+	if !c.fn.rec {
+		return nil
+	}
+	cut := -1
+	for i, st := range list {
+		if x, ok := st.(*ast.IfStmt); ok && i+1 < len(list) {
+			if !pcHasJump(x.Body) && (x.Else == nil || !pcHasJump(x.Else)) {
+				cut = i
+			}
+		}
+	}
+	if cut < 0 {
+		return nil
+	}
+	rest := list[cut+1:]
+	var nodes []ast.Node
+	for _, st := range rest {
+		nodes = append(nodes, st)
+	}
+	used := pgUsed(c.info, nodes...)
+	if c.fn.inout && c.recvObj != nil {
+		has := false
+		for _, v := range used {
+			if v == c.recvObj {
+				has = true
+			}
+		}
+		if !has {
+			used = append([]*types.Var{c.recvObj}, used...)
+		}
+	}
+	var vars []pgVar
+	for _, v := range used {
+		if v.Pos() >= rest[0].Pos() || c.ctxObj[v] {
+			continue
+		}
+		vars = append(vars, pgVar{c.name(v), c.varType(v)})
+	}
+	name := c.fn.key + "_k1"
+	sub := *c
+	sub.recRef = map[*pcFn]string{}
+	for f := range c.recRef {
+		sub.recRef[f] = "rec_" + f.key
+	}
+	body := sub.stmts(rest, k)
+	var lines []string
+	pcPrint(body, "  ", &lines)
+	hdr := "/-- " + c.fn.pkg.tpkg.Name() + "." + c.fn.key + ": what follows its last top-level join point -/\ndef " + name + " (W : World Context)"
+	call := []string{name, "W"}
+	for _, v := range vars {
+		hdr += " (" + v.name + " : " + v.typ + ")"
+		call = append(call, v.name)
+	}
+	for _, f := range c.cycleOrder() {
+		hdr += " (rec_" + f.key + " : " + f.ftype + ")"
+		call = append(call, pcP(c.recRef[f]))
+	}
+	hdr += " : M " + c.resLean + " := do"
+	*c.aux = append(*c.aux, hdr+"\n"+strings.Join(lines, "\n")+"\n")
+	return c.stmts(list[:cut+1], &pgTerm{strings.Join(call, " ")})
 }
